@@ -9,7 +9,8 @@ theorems plus one law of the flat spec):
                           `get_byte(i)` is `v`'s byte `i - s` for `s ≤ i < e` and the old `get_byte(i)` otherwise —
                           whatever the chunk layout (aligned fast path, splitting path, back-fill past the end);
 * `get_after_set_word`    ditto for `set_word` / MSTORE;
-* `slice_after_set_slice` reading back exactly the written range returns the written bytes.
+* `slice_after_set_slice` reading back exactly the written range returns the written bytes;
+* `length_after_set_slice` the size after a successful write is `max size e` (what MSIZE is computed from).
 -/
 import HalmosVerif.Props.C07
 
@@ -85,6 +86,18 @@ theorem slice_after_set_slice (hO : Lawful O) (bv bv' : BVec C) (s e : Nat) (v :
     rw [if_pos ⟨by omega, by omega⟩]
     have : s + k - s = k := by omega
     rw [this, List.getD_eq_getElem?_getD, List.getElem?_eq_getElem h2]; rfl
+
+/-- **length_after_set_slice.** the size after a successful write is the highest offset written so far -/
+theorem length_after_set_slice (hO : Lawful O) (bv bv' : BVec C) (s e : Nat) (v : Value C) (h : WF O bv) (hv : v.WF O)
+    (hse : s < e) (hlen : e - s = v.len O) (hok : setSlice O bv s e v = .ok bv') :
+    bv'.length = max bv.length e := by
+  obtain ⟨bv'', hok', hwf', hfl⟩ := (refines_set_slice O hO bv s e v h hv).2.2.2 hse hlen
+  rw [hok] at hok'
+  cases hok'
+  have hl : (v.bytes O).length = e - s := by rw [BVec.Value.bytes_len O hO v hv, hlen]
+  have hne : v.bytes O ≠ [] := by intro h0; rw [h0] at hl; simp at hl; omega
+  rw [refines_length O hO bv' hwf', hfl, length_after_write _ _ _ hne, ← refines_length O hO bv h, hl]
+  omega
 
 /-- **get_after_set_word.** MSTORE-style 32-byte write, then any one-byte read -/
 theorem get_after_set_word (hO : Lawful O) (bv bv' : BVec C) (off : Nat) (w : C) (h : WF O bv) (hw : O.len w = 32)
